@@ -260,7 +260,7 @@ def _consumes_drop(P: Project, f: FunctionInfo, n: ast.AST, names: set) -> bool:
         q = P.resolve_in(f, n.func) or ""
         tail = q.split(".")[-1]
         if q == f"{NULLS}.drop_rows" or (tail == "delete" and (q.startswith("numpy") or isinstance(n.func, ast.Attribute))):
-            idx = kwarg(n, "indices") or (n.args[1] if len(n.args) > 1 else (n.args[0] if tail == "delete" and n.args and not q.startswith("numpy") else None))
+            idx = kwarg(n, "indices") or kwarg(n, "obj") or (n.args[1] if len(n.args) > 1 else (n.args[0] if tail == "delete" and n.args and not q.startswith("numpy") else None))
             return idx is not None and mentions(idx, names)
     return False
 
